@@ -208,6 +208,9 @@ func p2psimRun(r *Run) {
 		// announcing several blocks at once does) and a transaction entry after it
 		n.invTrail = t.Pick([]int{55, 25, 20}, "inv-trail")
 		n.invTx = t.Chance(1, 4, "inv-tx")
+		// an inv-announcing node may be one that does not know BIP 130 at all and keeps announcing by inv whatever
+		// the service asked for
+		n.ignoresSendHeaders = n.announce == "inv" && t.Chance(1, 2, "ignores-sendheaders")
 		if i == 0 {
 			n.role, n.best = "honest", honestChain[L-1]
 			g.honest = n
@@ -937,7 +940,7 @@ func (g *p2pRig) announce(n *simNode, nb *MHeader) {
 		// is known to have: the node sends every header after the last one it knows the service has; when it
 		// does not know, or the gap exceeds its reply cap, it falls back to inv
 		var seg []*MHeader
-		if (n.announce == "headers" || c.wantsHeaders) && c.known != nil {
+		if (n.announce == "headers" || (c.wantsHeaders && !n.ignoresSendHeaders)) && c.known != nil {
 			for h := nb; h != nil && h != c.known; h = h.Parent {
 				seg = append([]*MHeader{h}, seg...)
 				if h.Parent == nil {
@@ -1197,11 +1200,27 @@ func (g *p2pRig) nodeAsksGetHeaders(c *nodeConn) {
 		r.Logf("%s asks getheaders loc=%d stop=%s", c, n, gh.HashStop.String()[:8])
 	}
 	before := len(c.hdrReplies)
-	for _, gh := range reqs {
-		c.send(gh)
+	if nReq > 1 {
+		// the node does not read for a while: the service's writer for this peer is stuck in the pong of a ping,
+		// the answers queue up behind it while the service's reader goes through the requests one after the other.
+		// (Which of reader and writer is faster is otherwise decided inside the service; with the writer stuck
+		// the order is the simulator's.)
+		g.uniqueInstant()
+		c.svcEnd.BlockWrites(true)
+		c.send(wire.NewMsgPing(uint64(0x5eed0000) + uint64(r.Step)))
+		c.nodeEnd.DeliverThrough()
+		synctest.Wait()
+		for _, gh := range reqs {
+			c.send(gh)
+			c.nodeEnd.DeliverThrough()
+			synctest.Wait()
+		}
+		c.svcEnd.BlockWrites(false)
+		r.Fault("peer-not-reading")
+	} else {
+		c.send(reqs[0])
+		g.deliver(c, 0)
 	}
-	g.uniqueInstant()
-	c.nodeEnd.DeliverThrough()
 	synctest.Wait()
 	for _, m := range c.parse() {
 		g.nodeReceive(c, m)
@@ -1339,6 +1358,13 @@ func (g *p2pRig) heal() {
 	deadline := g.now().Add(3 * time.Hour)
 	H := g.honest
 	round := 0
+	// "ends up storing that peer's best chain ... whenever new blocks are announced": once the service has caught
+	// up for the first time the honest node finds a few more blocks, one at a time, each announced once (by every
+	// node that follows it); after each of them the service has to catch up again, without the help of a later
+	// announcement
+	lastBlocks := g.t.Range(0, 2, "heal-last-blocks")
+	r.Cfg["heal_last_blocks"] = lastBlocks
+	caughtUp := false
 	for g.now().Before(deadline) {
 		round++
 		r.Step++
@@ -1372,16 +1398,39 @@ func (g *p2pRig) heal() {
 			}
 		}
 		if g.converged() && round > 1 {
-			r.Logf("heal: converged in round %d", round)
-			g.finalChecks()
-			return
+			if lastBlocks == 0 {
+				r.Logf("heal: converged in round %d", round)
+				g.finalChecks()
+				return
+			}
+			if !caughtUp {
+				r.Logf("heal: caught up in round %d", round)
+				deadline = g.now().Add(90 * time.Minute)
+			}
+			caughtUp = true
+			lastBlocks--
+			r.Probe("block-announced-after-catching-up")
+			g.mineAndAnnounce(H)
+			if mode == "others-follow" {
+				for _, n := range g.nodes {
+					if n != H {
+						n.best = H.best
+						g.announce(n, H.best)
+					}
+				}
+			}
+			g.settle()
+			continue
 		}
 		// liveness assumption of the real network: the honest node finds and announces a new block now and then
 		if reconnect && round%7 == 0 && len(g.liveConns(func(c *nodeConn) bool { return c.node == H })) < 3 {
 			c := g.connect(H)
 			r.Logf("heal: honest node opens a fresh connection %s", c)
 		}
-		if round%3 == 0 && round <= 30 {
+		if caughtUp {
+			// no further announcement comes to the rescue
+			g.advance([]time.Duration{time.Second, 16 * time.Second, 31 * time.Second, 95 * time.Second}[round%4])
+		} else if round%3 == 0 && round <= 30 {
 			g.mineAndAnnounce(H)
 			if mode == "others-follow" {
 				for _, n := range g.nodes {
@@ -1403,6 +1452,9 @@ func (g *p2pRig) heal() {
 		th, thh = tip.Height, tip.Hash.String()[:8]
 	}
 	sig := fmt.Sprintf("mode=%s,reconnect=%v,ck-disabled=%v,fresh=%v", mode, reconnect, g.disableCk, g.fresh)
+	if caughtUp {
+		sig += ",after-catching-up"
+	}
 	if g.focus == "C07" {
 		// "after either event the service still converges on an honest peer's chain": when a misbehaviour was
 		// delivered in this run, the failed convergence is C07's to report
